@@ -87,14 +87,14 @@ theorem map_eq_nil_of {α β} {f : α → β} {l : List α} (h : l.map f = []) :
 
 mutual
   theorem fold_ok (tbl : Table) (iw : Nat) (ht : tableTyped tbl = true) : ∀ (t : Tree),
-      wf tbl t = true → layoutBlank t = true →
+      wf tbl t = true →
       ∃ v, fold tbl iw t = some v ∧ HasKind v (kindOf (rootSym tbl t)) ∧
-        content v = despace (leaves t).flatten
-    | .tok sym text, hw, _ => by
+        (layoutBlank t = true → content v = despace (leaves t).flatten)
+    | .tok sym text, hw => by
       simp only [wf, beq_iff_eq] at hw
-      refine ⟨.str text, rfl, ?_, by simp [leaves]⟩
+      refine ⟨.str text, rfl, ?_, fun _ => by simp [leaves]⟩
       simp only [rootSym, hw]; exact ⟨_, rfl⟩
-    | .node p cs, hw, hl => by
+    | .node p cs, hw => by
       simp only [wf] at hw
       split at hw
       · cases hw
@@ -102,8 +102,7 @@ mutual
         simp only [Bool.and_eq_true, beq_iff_eq] at hw
         obtain ⟨⟨hrhs, hwl⟩, hdoc⟩ := hw
         obtain ⟨hce, hdo, _⟩ := tableTyped_entry ht he
-        simp only [layoutBlank] at hl
-        obtain ⟨args, hargs, hkinds, hcont⟩ := foldList_ok tbl iw ht cs hwl hl
+        obtain ⟨args, hargs, hkinds, hcont⟩ := foldList_ok tbl iw ht cs hwl
         cases hres : resolve e with
         | none => simp [hres] at hdoc
         | some h =>
@@ -112,19 +111,18 @@ mutual
             simp only [fold, he, hres, hargs]
           have hroot : rootSym tbl (.node p cs) = e.1 := by simp only [rootSym, he]
           rw [hfold, hroot]
-          simp only [leaves]
-          rw [← hcont]
+          simp only [leaves, layoutBlank]
           have hkinds' : HasKinds args (e.2.1.map kindOf) := by
             rw [← hrhs, List.map_map]; exact hkinds
           by_cases hel : h = .emptyList
           · subst hel
-            simp only [checkEntry, hres, Bool.and_eq_true, List.isEmpty_iff] at hce
-            have hcs : cs = [] := map_eq_nil_of (hrhs.trans hce.1)
+            simp only [checkEntry, checkCore, hres, Bool.and_eq_true, List.isEmpty_iff] at hce
+            have hcs : cs = [] := map_eq_nil_of (hrhs.trans (map_eq_nil_of hce.1))
             subst hcs
             simp only [foldList] at hargs; cases hargs
-            exact ⟨.nil, rfl, hasKind_nil_of_hasEmpty hce.2, rfl⟩
+            exact ⟨.nil, rfl, hasKind_nil_of_hasEmpty hce.2, fun _ => rfl⟩
           · have hce' : ∃ k, h.sig (e.2.1.map kindOf) = some k ∧ k.le (kindOf e.1) = true := by
-              simp only [checkEntry, hres] at hce
+              simp only [checkEntry, checkCore, hres] at hce
               cases h <;> first | exact absurd rfl hel | (
                 split at hce
                 · rename_i k hk; exact ⟨k, hk, hce⟩
@@ -156,13 +154,17 @@ mutual
                 · cases hdoc
               subst hb'
               obtain ⟨v, hv, hkv, hcv⟩ := hDocLine_ok ha hc
-              exact ⟨v, hv, hkv.weaken hle, hcv⟩
-            · have hdrop : ∀ i ∈ h.dropped, ∀ v, args[i]? = some v → content v = [] := by
+              exact ⟨v, hv, hkv.weaken hle, fun hl => by rw [hcv, hcont hl]⟩
+            · obtain ⟨v, hv, hkv, hcv⟩ := run_ok iw h args _ k hd hkinds' hsig
+              refine ⟨v, hv, hkv.weaken hle, fun hl => ?_⟩
+              have hdrop : DroppedBlank h args := by
                 intro i hi v hv
-                simp only [dropOK, hres, List.all_eq_true] at hdo
+                simp only [dropOK, dropCore, hres, List.all_eq_true, List.getElem?_map] at hdo
                 have hsym := hdo i hi
-                split at hsym
-                · rename_i s hs
+                cases hs : e.2.1[i]? with
+                | none => simp [hs] at hsym
+                | some s =>
+                  simp only [hs, Option.map_some] at hsym
                   obtain ⟨c, hc, hfc⟩ := foldList_get tbl iw _ _ hargs i v hv
                   have hrs : rootSym tbl c = s := by
                     have : (cs.map (rootSym tbl))[i]? = some s := by rw [hrhs]; exact hs
@@ -170,22 +172,20 @@ mutual
                     exact Option.some.inj this
                   exact layout_child_blank ht iw c v (layoutBlankList_get cs hl i c hc)
                     (by rw [hrs]; exact hsym) (wfList_get tbl cs hwl i c hc) hfc
-                · cases hsym
-              obtain ⟨v, hv, hkv, hcv⟩ := run_ok iw h args _ k hd hkinds' hsig hdrop
-              exact ⟨v, hv, hkv.weaken hle, hcv⟩
+              rw [hcv hdrop, hcont hl]
   theorem foldList_ok (tbl : Table) (iw : Nat) (ht : tableTyped tbl = true) : ∀ (ts : List Tree),
-      wfList tbl ts = true → layoutBlankList ts = true →
+      wfList tbl ts = true →
       ∃ vs, foldList tbl iw ts = some vs ∧
         HasKinds vs (ts.map (fun t => kindOf (rootSym tbl t))) ∧
-        contents vs = despace (leavesList ts).flatten
-    | [], _, _ => ⟨[], rfl, trivial, rfl⟩
-    | t :: ts, hw, hl => by
+        (layoutBlankList ts = true → contents vs = despace (leavesList ts).flatten)
+    | [], _ => ⟨[], rfl, trivial, fun _ => rfl⟩
+    | t :: ts, hw => by
       simp only [wfList, Bool.and_eq_true] at hw
+      obtain ⟨v, hv, hk, hc⟩ := fold_ok tbl iw ht t hw.1
+      obtain ⟨vs, hvs, hks, hcs⟩ := foldList_ok tbl iw ht ts hw.2
+      refine ⟨v :: vs, by simp only [foldList, hv, hvs], ⟨hk, hks⟩, fun hl => ?_⟩
       simp only [layoutBlankList, Bool.and_eq_true] at hl
-      obtain ⟨v, hv, hk, hc⟩ := fold_ok tbl iw ht t hw.1 hl.1
-      obtain ⟨vs, hvs, hks, hcs⟩ := foldList_ok tbl iw ht ts hw.2 hl.2
-      refine ⟨v :: vs, by simp only [foldList, hv, hvs], ⟨hk, hks⟩, ?_⟩
-      simp [leavesList, hc, hcs]
+      simp [leavesList, hc hl.1, hcs hl.2]
 end
 
 end Emboss.Fmt
